@@ -63,6 +63,13 @@ class FsMon:
         self.trace: list[tuple[str, str, str]] = []   # (op, path, r|w)
         self.violations: list[Violation] = []
         self.mutations = 0
+        #: mutating operations that are candidates for an injected fault
+        #: (lock files are skipped: a failed unlink of a lock file leaves the
+        #: lock until its 600 s expiry, by design; so is the removal of a
+        #: temporary file in a maildir's tmp/, which the standard library does
+        #: after its commit point and cannot report meaningfully)
+        self.faultable = 0
+        self.fault_skip_suffix = '.lock'
         self.active = False
         self.enabled = True
         self.forbid_root_itself = False
@@ -113,13 +120,19 @@ class FsMon:
                     raise PermissionError(errno.EACCES,
                                           'fsmon: confined', npath)
             self.mutations += 1
+            skip = npath.endswith(self.fault_skip_suffix) or (
+                op in ('remove', 'unlink') and '/tmp/' in npath)
+            if not skip:
+                self.faultable += 1
             if self.on_mutation is not None:
                 self.enabled = False
                 try:
                     self.on_mutation(self.mutations, op, npath)
                 finally:
                     self.enabled = True
-            if self.fault_at is not None and self.mutations == self.fault_at:
+            if self.fault_at is not None and self.faultable == self.fault_at \
+                    and not skip:
+                self.fault_at = None
                 raise OSError(errno.EIO, 'fsmon: injected I/O error', npath)
         elif op in ('listdir', 'scandir', 'open-r') and root is not None:
             ok = self._inside(npath, root, strict=False) or any(
@@ -149,11 +162,13 @@ class FsMon:
                 self._check(name, src, 'w')
                 # the same mutation, second path: check without counting twice
                 saved = self.mutations, self.fault_at, self.on_mutation
+                saved_f = self.faultable
                 self.fault_at, self.on_mutation = None, None
                 try:
                     self._check(name, dst, 'w')
                 finally:
                     self.mutations = saved[0]
+                    self.faultable = saved_f
                     self.fault_at, self.on_mutation = saved[1], saved[2]
             return real(src, dst, *a, **kw)
         wrapper.__name__ = name
